@@ -99,9 +99,10 @@ struct Slot
     // for a symbol: the handle (token) its shared_ptr keeps alive according to the value semantics the property demands:
     // read through get() of the library object at load time, copied by copy/assignment, -1 once the symbol was moved from
     int h = -1;
+    int sid = -1; // which symbol name the symbol object was loaded for (4 = the NULL-valued one: never called)
     bool empty() const { return !lib && !sym && !raw; }
     int kind() const { return lib ? 1 : sym ? 2 : raw ? 3 : 0; }
-    void clear() { lib.reset(); sym.reset(); raw.reset(); h = -1; }
+    void clear() { lib.reset(); sym.reset(); raw.reset(); h = -1; sid = -1; }
 };
 
 std::string join(const std::vector<std::string>& l)
@@ -141,6 +142,7 @@ std::string sym_name(int s)
     case 1: return "vdl_g";
     case 2: return "vdl_only_a";
     case 3: return "vdl_self";
+    case 4: return "vdl_null"; // defined in library a with the value NULL (-Wl,--defsym,vdl_null=0)
     default: return "vdl_missing" + std::to_string(s);
     }
 }
@@ -256,6 +258,7 @@ std::string run(int n, const std::string& opsw)
                             if (file == 2) sl[i].sym.emplace(nitro::dl::dl(nitro::dl::self).load<int(int)>(sym_name(sy)));
                             else sl[i].sym.emplace(nitro::dl::dl(path_of(file)).load<int(int)>(sym_name(sy)));
                             sl[i].h = h;
+                            sl[i].sid = sy;
                         }
                         else
                         {
@@ -263,6 +266,7 @@ std::string run(int n, const std::string& opsw)
                             int h = tok_id(lib.get().get());
                             sl[i].sym.emplace(lib.load<int(int)>(sym_name(sy)));
                             sl[i].h = h;
+                            sl[i].sid = sy;
                         }
                         r = "ok";
                     }
@@ -296,6 +300,7 @@ std::string run(int n, const std::string& opsw)
                     {
                         sl[i].sym.emplace(nitro::dl::dl(*sl[j].lib).load<int(int)>(sym_name(sy)));
                         sl[i].h = h;
+                        sl[i].sid = sy;
                         r = "ok";
                     }
                     catch (const nitro::dl::exception& e)
@@ -329,6 +334,7 @@ std::string run(int n, const std::string& opsw)
                         else if (xvalue) sl[i].sym.emplace(std::move(*sl[j].lib).load<int(int)>(sym_name(s)));
                         else sl[i].sym.emplace(sl[j].lib->load<int(int)>(sym_name(s)));
                         sl[i].h = h;
+                        sl[i].sid = s;
                         r = "ok";
                     }
                     catch (const nitro::dl::exception& e)
@@ -348,7 +354,7 @@ std::string run(int n, const std::string& opsw)
                 if (valid(i) && valid(j) && sl[i].empty() && !sl[j].empty())
                 {
                     if (sl[j].lib) sl[i].lib.emplace(*sl[j].lib);
-                    else if (sl[j].sym) { sl[i].sym.emplace(*sl[j].sym); sl[i].h = sl[j].h; }
+                    else if (sl[j].sym) { sl[i].sym.emplace(*sl[j].sym); sl[i].h = sl[j].h; sl[i].sid = sl[j].sid; }
                     else sl[i].raw.emplace(*sl[j].raw);
                     r = "ok";
                 }
@@ -360,7 +366,7 @@ std::string run(int n, const std::string& opsw)
                 if (valid(i) && valid(j) && sl[i].empty() && !sl[j].empty())
                 {
                     if (sl[j].lib) sl[i].lib.emplace(std::move(*sl[j].lib));
-                    else if (sl[j].sym) { sl[i].sym.emplace(std::move(*sl[j].sym)); sl[i].h = sl[j].h; sl[j].h = -1; }
+                    else if (sl[j].sym) { sl[i].sym.emplace(std::move(*sl[j].sym)); sl[i].h = sl[j].h; sl[i].sid = sl[j].sid; sl[j].h = -1; }
                     else sl[i].raw.emplace(std::move(*sl[j].raw));
                     r = "ok";
                 }
@@ -376,20 +382,20 @@ std::string run(int n, const std::string& opsw)
                     if (f[0] == "as")
                     {
                         if (a.lib) *a.lib = *b.lib;
-                        else if (a.sym) { *a.sym = *b.sym; a.h = b.h; }
+                        else if (a.sym) { *a.sym = *b.sym; a.h = b.h; a.sid = b.sid; }
                         else *a.raw = *b.raw;
                     }
                     else if (f[0] == "ma")
                     {
                         if (a.lib) *a.lib = std::move(*b.lib);
-                        else if (a.sym) { *a.sym = std::move(*b.sym); if (i != j) { a.h = b.h; b.h = -1; } }
+                        else if (a.sym) { *a.sym = std::move(*b.sym); if (i != j) { a.h = b.h; a.sid = b.sid; b.h = -1; } }
                         else *a.raw = std::move(*b.raw);
                     }
                     else
                     {
                         using std::swap;
                         if (a.lib) swap(*a.lib, *b.lib);
-                        else if (a.sym) { swap(*a.sym, *b.sym); std::swap(a.h, b.h); }
+                        else if (a.sym) { swap(*a.sym, *b.sym); std::swap(a.h, b.h); std::swap(a.sid, b.sid); }
                         else swap(*a.raw, *b.raw);
                     }
                     r = "ok";
@@ -409,6 +415,7 @@ std::string run(int n, const std::string& opsw)
                     int h = sl[i].h;
                     // never jump into an unmapped library: that the handle was closed under a live symbol is the finding
                     if (toks[h]->closes > 0) r = "unmapped";
+                    else if (sl[i].sid == 4) r = "nullsym"; // defined with the value NULL: exists, owns the library, is not called
                     else r = "call:" + std::to_string((*sl[i].sym)(x));
                 }
             }
